@@ -413,16 +413,56 @@ Proof. vm_compute. reflexivity. Qed.
 Definition is_eq_op (op : kind) : bool :=
   match op with KEqEq | KNe | KEqEqEq | KNeEq => true | _ => false end.
 
+(* the pairs on which Go's == panics in the model: two arrays, two maps, the same host function
+   (equal id), the same builtin (equal name).  Two different functions, or a host function and a
+   builtin, are outside the model (Unk), as are two times and two opaque values. *)
 Definition uncomparable (a b : value) : bool :=
   match a, b with
   | VArr _, VArr _ | VMap _, VMap _ => true
-  | VFunc _, VFunc _ | VBuiltin _, VBuiltin _ | VFunc _, VBuiltin _ | VBuiltin _, VFunc _ => true
+  | VFunc f, VFunc g => f =? g
+  | VBuiltin m, VBuiltin n => bytes_eqb m n
   | _, _ => false
   end.
 
 Lemma iface_eq_panic_iff : forall a b, iface_eq a b = Panic <-> uncomparable a b = true.
 Proof.
-  intros a b. destruct a; destruct b; cbn; split; intros H; try discriminate H; reflexivity.
+  intros a b. destruct a; destruct b; cbn [iface_eq uncomparable];
+  try (split; intros H; try discriminate H; reflexivity).
+  - destruct (_ =? _); split; intros H; try discriminate H; reflexivity.
+  - destruct (bytes_eqb _ _); split; intros H; try discriminate H; reflexivity.
+Qed.
+
+(* the same characterisation spelled out *)
+Lemma uncomparable_cases : forall a b, uncomparable a b = true <->
+  (exists x y, a = VArr x /\ b = VArr y) \/ (exists x y, a = VMap x /\ b = VMap y) \/
+  (exists f, a = VFunc f /\ b = VFunc f) \/
+  (exists m n, a = VBuiltin m /\ b = VBuiltin n /\ bytes_eqb m n = true).
+Proof.
+  intros a b. split.
+  - intros H. destruct a; try discriminate H; destruct b; try discriminate H; cbn [uncomparable] in H.
+    + left. eexists. eexists. split; reflexivity.
+    + right. left. eexists. eexists. split; reflexivity.
+    + right. right. left. apply Z.eqb_eq in H. subst. eexists. split; reflexivity.
+    + right. right. right. eexists. eexists. split; [reflexivity|]. split; [reflexivity|exact H].
+  - intros [(x & y & -> & ->)|[(x & y & -> & ->)|[(f & -> & ->)|(m & n & -> & -> & H)]]];
+      cbn [uncomparable]; [reflexivity|reflexivity|apply Z.eqb_refl|exact H].
+Qed.
+
+(* where the model says Unk: both operands functions, but not known to be the same one; two
+   times; two opaque values *)
+Lemma iface_eq_unk_iff : forall a b, iface_eq a b = Unk <->
+  match a, b with
+  | VFunc f, VFunc g => (f =? g) = false
+  | VBuiltin m, VBuiltin n => bytes_eqb m n = false
+  | VFunc _, VBuiltin _ | VBuiltin _, VFunc _ => True
+  | VTime _, VTime _ | VOpaque _, VOpaque _ => True
+  | _, _ => False
+  end.
+Proof.
+  intros a b. destruct a; destruct b; cbn [iface_eq];
+  try (split; intros H; try discriminate H; try contradiction; try reflexivity; exact I).
+  - destruct (_ =? _); split; intros H; try discriminate H; reflexivity.
+  - destruct (bytes_eqb _ _); split; intros H; try discriminate H; reflexivity.
 Qed.
 
 Lemma uncomparable_not_null : forall a b, uncomparable a b = true -> is_null a = false.
@@ -440,16 +480,30 @@ Proof.
     destruct a; try discriminate H; try (destruct b; discriminate H); cbn [is_null andb]; exact H.
 Qed.
 
+(* === passes the outcome of Go's == through unchanged *)
+Lemma strict_eq_alt : forall a b,
+  strict_eq a b =
+  if is_null a && is_null b then Ok true
+  else match a, b with
+       | VNum x, VNum y => Ok (dec_cmp x y =? 0)
+       | _, _ => iface_eq a b
+       end.
+Proof.
+  intros a b. unfold strict_eq. destruct (is_null a && is_null b); [reflexivity|].
+  destruct a; destruct b; try reflexivity;
+    destruct (iface_eq _ _) as [[|]| | |]; reflexivity.
+Qed.
+
 Lemma strict_eq_panic_iff : forall a b, strict_eq a b = Panic <-> uncomparable a b = true.
 Proof.
-  intros a b. split.
-  - intros H. apply iface_eq_panic_iff. unfold strict_eq in H.
+  intros a b. rewrite strict_eq_alt. split.
+  - intros H. apply iface_eq_panic_iff.
     destruct (is_null a && is_null b); [discriminate H|].
-    destruct (iface_eq a b) as [[|]| | |] eqn:E; try reflexivity;
-      destruct a; try discriminate H; destruct b; discriminate H.
+    destruct a; try exact H; destruct b; try exact H; discriminate H.
   - intros H. pose proof (uncomparable_not_null a b H) as Hn.
-    unfold strict_eq. rewrite Hn. cbn [andb].
-    destruct a; try discriminate H; destruct b; try discriminate H; reflexivity.
+    rewrite Hn. cbn [andb].
+    destruct a; try discriminate H; destruct b; try discriminate H;
+      apply iface_eq_panic_iff; exact H.
 Qed.
 
 Lemma rel_op_no_panic : forall op a b, rel_op op a b <> Panic.
@@ -546,6 +600,31 @@ Example ex_compare_maps :
   let e := SBin (SLit KThis []) KEqEqEq (SLit KThis []) in
   fst (eval [] 0 e (mkR None [])) = Panic /\ fst (resolve_entry [] 0 e (mkR None [])) = Err.
 Proof. split; vm_compute; reflexivity. Qed.
+
+(* the same function on both sides: any two operands that evaluate to the same host function or
+   to the same builtin *)
+Lemma compare_same_function : forall hosts off l op r st v1 st1 v2 st2,
+  is_eq_op op = true ->
+  eval hosts off l st = (Ok v1, st1) -> eval hosts off r st1 = (Ok v2, st2) ->
+  (exists f, v1 = VFunc f /\ v2 = VFunc f) \/
+  (exists m n, v1 = VBuiltin m /\ v2 = VBuiltin n /\ bytes_eqb m n = true) ->
+  fst (resolve_entry hosts off (SBin l op r) st) = Err.
+Proof.
+  intros hosts off l op r st v1 st1 v2 st2 Hop Hl Hr H.
+  apply (compare_uncomparable hosts off l op r st v1 st1 v2 st2 Hop Hl Hr).
+  apply uncomparable_cases. right. right. exact H.
+Qed.
+
+(* left == left: Panic inside, Err at the entry; left == right: outside the model *)
+Example ex_compare_same_builtin :
+  let e := SBin (SIdent KIdent (str "left")) KEqEq (SIdent KIdent (str "left")) in
+  fst (eval [] 0 e (mkR None [])) = Panic /\ fst (resolve_entry [] 0 e (mkR None [])) = Err.
+Proof. split; vm_compute; reflexivity. Qed.
+
+Example ex_compare_different_builtins :
+  let e := SBin (SIdent KIdent (str "left")) KEqEq (SIdent KIdent (str "right")) in
+  fst (resolve_entry [] 0 e (mkR None [])) = Unk.
+Proof. vm_compute. reflexivity. Qed.
 
 (* f. reading a field a struct does not have (time.Time is the model's struct) *)
 Lemma member_of_struct_missing_field : forall hosts off a nk name asrt st t st1,
